@@ -1,6 +1,7 @@
 package main
 
 import (
+	"strings"
 	"encoding/json"
 	"os"
 	"fmt"
@@ -215,3 +216,50 @@ func devGenAlpha(pool *sup.Pool, args []string) int {
 }
 
 func init() { devCmds["genalpha"] = devGenAlpha }
+
+// devUnknown: tabulate R1's abstentions over many mutants against Grits' verdict.
+func devUnknown(pool *sup.Pool, args []string) int {
+	n, _ := strconv.Atoi(args[0])
+	r := rand.New(rand.NewSource(4242))
+	var jobs []sup.Job
+	var reasons []string
+	for i := 0; len(jobs) < n && i < 50*n; i++ {
+		p, _, _ := gen.Generate(int64(9000+i%400), mixedOpt(i))
+		m := mut.Mutate(p, r)
+		if m == nil {
+			continue
+		}
+		v := typing.Check(m.P)
+		if v.Kind != typing.Unknown {
+			continue
+		}
+		jobs = append(jobs, sup.Job{Kind: "typecheck", Text: m.P.Text()})
+		reasons = append(reasons, v.Reason+" ("+m.Op+")")
+	}
+	tab := map[string][2]int{}
+	ex := map[string]string{}
+	for i, o := range pool.Run(jobs, nil) {
+		if o.Res == nil || !o.Res.ParseOK {
+			continue
+		}
+		t := tab[reasons[i]]
+		if o.Res.TcOK {
+			t[0]++
+			if ex[reasons[i]] == "" {
+				ex[reasons[i]] = jobs[i].Text
+			}
+		} else {
+			t[1]++
+		}
+		tab[reasons[i]] = t
+	}
+	for k, v := range tab {
+		fmt.Printf("%-70s accepted %4d rejected %4d\n", k, v[0], v[1])
+	}
+	for k, t := range ex {
+		os.WriteFile("/tmp/unknown_"+strings.ReplaceAll(strings.Fields(k)[0], "/", "_")+".grits", []byte(t), 0o644)
+	}
+	return 0
+}
+
+func init() { devCmds["unknown"] = devUnknown }
